@@ -93,6 +93,8 @@ class NestGen:
     def catch_value(self, raised, ctx=None):
         rng = self.rng
         r = rng.random()
+        if rng.random() < 0.06:
+            return {"e": ["lam"]}       # never equal to any raised value
         if ctx and rng.random() < 0.25:
             # a catch value computed from a variable: the same block can
             # meet different catch values on different executions
@@ -121,6 +123,9 @@ class NestGen:
         if rng.random() < 0.04:
             # an error value that is not data: an output stream object
             return ["erre", ["v", "stdout"]]
+        if rng.random() < 0.04:
+            # ... or a function value (equal only to itself)
+            return ["erre", ["lam"]]
         if rng.random() < 0.6:
             return ["err", self.value()]
         return [rng.choice(["undef", "div0", "idx", "badcall"])]
